@@ -21,8 +21,12 @@
 #define CAP 6 /* capacity of the data vector (model bound); the length is symbolic in 0..CAP */
 #include "gen.h"
 
-struct Parmap g_pm;
+struct ThreadData g_td; /* the worker's ThreadData; its reference member `parmap` is emitted as an embedded struct */
+#define g_pm (g_td.parmap) /* THE parmap of every harness */
 struct Synchro g_syn;
+struct EngineImpl g_engine;
+struct ContextFactory g_cf;
+struct Context g_ctx; /* the context create_context returns to the worker thread */
 struct vf_seq_ActorImplP g_data; /* the vector handed to apply */
 struct ActorImpl* g_buf[CAP];    /* its storage */
 struct ActorImpl g_actor[CAP];   /* the elements: data[k] == &g_actor[k] */
@@ -50,6 +54,12 @@ vf_fnptr g_sig_fn;
 void* g_sig_env;
 unsigned long g_sig_nt, g_wait_nt; /* tickets drawn by the caller when the barrier call happened */
 unsigned int g_wait_last;
+
+/* ---- ghost state of the worker-side round protocol (worker_main) ---- */
+unsigned int g_phase; /* 0 = before the first worker_wait, 1 = released by worker_wait (round open), 2 = signalled */
+unsigned int g_ww_n, g_ws_n; /* calls of worker_wait / worker_signal (modulo 2^32, like the round counters) */
+_Bool g_round_ok;            /* the k-th worker_wait asked for round k */
+unsigned int g_ctx_created, g_ctx_set;
 
 #define ALLK(P) (P(0) && P(1) && P(2) && P(3) && P(4) && P(5))
 #if CAP != 6
@@ -143,7 +153,7 @@ void Parmap__work(struct Parmap* self)
     /* clang-format off */
 __CPROVER_requires(self == &g_pm && WF_PM && vf_exc == 0)
 __CPROVER_requires(DISP_WF(g_pm.common_index)) /*@ work_pre_counter_consistent_with_round */
-__CPROVER_requires(FRESH_ME && g_c0 == g_pm.common_index)
+__CPROVER_requires(FRESH_ME && g_c0 == g_pm.common_index) /*@ work_pre_fresh_round_of_this_thread */
 __CPROVER_assigns(g_pm.common_index, g_nt, g_last, __CPROVER_object_whole(g_mine), __CPROVER_object_whole(g_other),
                   __CPROVER_object_whole(g_cnt), g_bad, g_fany, g_flast, g_ord_ok)
 __CPROVER_ensures(g_nt >= 1 && g_last >= g_data.n) /*@ work_returns_only_after_ticket_past_end */
@@ -194,6 +204,75 @@ __CPROVER_ensures(!g_solo || ALLK(A_SOLO_K)) /*@ apply_alone_processes_every_ind
 __CPROVER_ensures(vf_exc == 0)
     /* clang-format on */
     ;
+
+/* ---- Parmap::worker_main(data): the loop of a worker thread. The barrier calls are assumed callees that police the
+ * order of the calls through their preconditions (g_phase) and open a new round: worker_wait returns with destroying
+ * set, or with the publication of the master visible (what apply() does before master_signal) and a fresh ticket
+ * state of this thread; worker_signal may only be called once this thread has drawn a ticket past the end. ---- */
+struct EngineImpl* get_instance(void)
+    /* clang-format off */
+__CPROVER_assigns()
+__CPROVER_ensures(__CPROVER_pointer_in_range_dfcc(&g_engine, __CPROVER_return_value, &g_engine))
+__CPROVER_ensures(__CPROVER_return_value == &g_engine && vf_exc == 0)
+    /* clang-format on */
+    ;
+struct Context* ContextFactory__create_context(struct ContextFactory* cf, struct vf_fn* code, struct ActorImpl* actor)
+    /* clang-format off */
+__CPROVER_requires(cf == &g_cf && actor == NULL && code->fn == 0 && g_ctx_created < 1000)
+__CPROVER_assigns(g_ctx_created)
+__CPROVER_ensures(__CPROVER_pointer_in_range_dfcc(&g_ctx, __CPROVER_return_value, &g_ctx))
+__CPROVER_ensures(__CPROVER_return_value == &g_ctx && g_ctx_created == __CPROVER_old(g_ctx_created) + 1 && vf_exc == 0)
+    /* clang-format on */
+    ;
+void set_current(struct Context* c)
+    /* clang-format off */
+__CPROVER_requires(c == &g_ctx && g_ctx_set < 1000)
+__CPROVER_assigns(g_ctx_set)
+__CPROVER_ensures(g_ctx_set == __CPROVER_old(g_ctx_set) + 1 && vf_exc == 0)
+    /* clang-format on */
+    ;
+#define WM_ROUND_STATE                                                                                                 \
+  g_pm.destroying, g_pm.common_index, g_pm.common_data, g_pm.worker_fun, g_data.n, g_c0, g_nt, g_last,                 \
+      __CPROVER_object_whole(g_mine), __CPROVER_object_whole(g_other), __CPROVER_object_whole(g_cnt), g_bad, g_fany,   \
+      g_flast, g_ord_ok
+void Synchro__worker_wait(struct Synchro* s, unsigned int round)
+    /* clang-format off */
+__CPROVER_requires(s == &g_syn)
+__CPROVER_requires(g_phase == 0 || g_phase == 2) /*@ wm_waits_only_before_first_round_or_after_its_signal */
+__CPROVER_assigns(g_phase, g_ww_n, g_round_ok, WM_ROUND_STATE)
+__CPROVER_ensures(g_phase == 1 && g_ww_n == __CPROVER_old(g_ww_n) + 1 && g_round_ok == (__CPROVER_old(g_round_ok) && round == g_ww_n))
+__CPROVER_ensures(g_pm.destroying || (WF_PM && DISP_WF(g_pm.common_index) && FRESH_ME && g_c0 == g_pm.common_index))
+__CPROVER_ensures(vf_exc == 0)
+    /* clang-format on */
+    ;
+void Synchro__worker_signal(struct Synchro* s)
+    /* clang-format off */
+__CPROVER_requires(s == &g_syn)
+__CPROVER_requires(g_phase == 1) /*@ wm_signals_once_per_open_round */
+__CPROVER_requires(!g_pm.destroying && g_nt >= 1 && g_last >= g_data.n) /*@ wm_signals_only_after_own_work_is_finished */
+__CPROVER_assigns(g_phase, g_ws_n)
+__CPROVER_ensures(g_phase == 2 && g_ws_n == __CPROVER_old(g_ws_n) + 1 && vf_exc == 0)
+    /* clang-format on */
+    ;
+#define WF_WM                                                                                                          \
+  (g_data.d == g_buf && g_data.h == 0 && g_data.cap == CAP && ALLK(ELEM_K) && g_pm.synchro == &g_syn &&                \
+   g_engine.context_factory_ == &g_cf)
+void Parmap__worker_main(struct ThreadData* data)
+    /* clang-format off */
+__CPROVER_requires(data == &g_td && WF_WM && vf_exc == 0)
+__CPROVER_requires(g_phase == 0 && g_ww_n == 0 && g_ws_n == 0 && g_round_ok && g_ctx_created == 0 && g_ctx_set == 0)
+__CPROVER_assigns(g_phase, g_ww_n, g_ws_n, g_round_ok, g_ctx_created, g_ctx_set, WM_ROUND_STATE)
+__CPROVER_ensures(g_pm.destroying) /*@ wm_returns_only_when_destroying */
+__CPROVER_ensures(g_phase == 1 && g_ws_n + 1 == g_ww_n) /*@ wm_one_work_and_one_signal_per_round */
+__CPROVER_ensures(g_round_ok) /*@ wm_waits_for_consecutive_rounds */
+__CPROVER_ensures(g_ctx_created == 1 && g_ctx_set == 1) /*@ wm_creates_and_installs_its_context_once */
+__CPROVER_ensures(vf_exc == 0)
+    /* clang-format on */
+    ;
+#define VF_LOOP_Parmap__worker_main_0                                                                                  \
+  __CPROVER_assigns(round, g_phase, g_ww_n, g_ws_n, g_round_ok, WM_ROUND_STATE)                                        \
+  __CPROVER_loop_invariant(vf_exc == 0 && parmap == &g_pm && round == g_ww_n && g_ws_n == g_ww_n &&                    \
+                           (g_phase == 0 || g_phase == 2) && g_round_ok)
 
 #include "gen.c"
 
@@ -247,6 +326,7 @@ static void setup(void)
 {
   g_pm.common_data    = &g_data;
   g_pm.synchro        = &g_syn;
+  g_engine.context_factory_ = &g_cf;
   g_pm.worker_fun.fn  = (vf_fnptr)fun_log;
   g_pm.worker_fun.env = &g_env;
   g_fun.fn            = (vf_fnptr)fun_log;
@@ -271,6 +351,14 @@ void harness(void)
 {
   setup();
   Parmap__work(&g_pm);
+  VF_CANARY_POINT;
+}
+#endif
+#ifdef H_worker_main
+void harness(void)
+{
+  setup();
+  Parmap__worker_main(&g_td);
   VF_CANARY_POINT;
 }
 #endif
